@@ -12,12 +12,6 @@ func C01_History_Writes() {
 		caches: []int{0, 10000}, fast: []bool{true, false}, thresh: []int{0}, auditOld: true}
 	if vTier() == "thorough" {
 		cfg.maxOps = 5
-		cfg.lenVars = 4
-		cfg.valVars = 3
-		cfg.caches = []int{0, 1, 10000}
-		cfg.thresh = []int{0, 101}
-		cfg.reopenCfg = true
-		cfg.nilKeys = 3
 	}
 	vStartHist(cfg).run()
 }
@@ -29,8 +23,7 @@ func C01_History_Prune() {
 		caches: []int{0, 10000}, fast: []bool{true, false}, thresh: []int{0, 101}, auditOld: true}
 	maxV, maxW := 3, 1
 	if vTier() == "thorough" {
-		maxV, maxW = 4, 2
-		cfg.nKeys = 3
+		maxV, maxW = 4, 1
 	}
 	h := vStartHist(cfg)
 	h.vBuildVersions(maxV, maxW)
@@ -50,7 +43,7 @@ func C01_ShapeStep() {
 	maxH := 2
 	if vTier() == "thorough" {
 		maxH = 3
-		cfg.lenVars = 4
+		cfg.lenVars = 2
 	}
 	h := vShapeState(cfg, maxH, 1, []int{0, 1, 2})
 	if h.p.n > 0 {
@@ -65,4 +58,16 @@ func C01_ShapeStep() {
 		h.doCommit()
 	}
 	h.audit()
+}
+
+var _ = vReg("C01_LongKeys", C01_LongKeys)
+
+// C01_LongKeys (thorough tier): short histories with every key-length vector (incl. a 130-byte key whose
+// length prefix needs two varint bytes), empty and 131-byte values, cache sizes {0,1,10000}, a tiny
+// flush threshold, Set(nil) on every key.
+func C01_LongKeys() {
+	cfg := &vHistCfg{name: "C01_LongKeys", nKeys: 3, lenVars: 4, valVars: 3, maxOps: 3,
+		ops:    []string{"set", "remove", "setnil", "commit", "rollback", "reopen"},
+		caches: []int{0, 1, 10000}, fast: []bool{true, false}, thresh: []int{0, 101}, auditOld: true, nilKeys: 3}
+	vStartHist(cfg).run()
 }
